@@ -381,6 +381,7 @@ func entryLockLevels(p *core.Program, spec guardSpec, fns []*ssa.Function) map[*
 }
 
 func runLockset(p *core.Program, r *core.Report, rule string, spec guardSpec, fns []*ssa.Function) {
+	spec = resolveGuardSpec(p, spec)
 	helpers := lockHelperSummaries(p, spec, fns)
 	entryHeld := entryLockLevels(p, spec, fns)
 	for _, fn := range fns {
@@ -891,4 +892,32 @@ func runRLockWrite(p *core.Program, r *core.Report, rule string) {
 		}
 	}
 	r.Count(rule+" functions taking a read lock", nfn)
+}
+
+// resolveGuardSpec: the mutex of the guarded struct is found by its type when
+// no field has the expected name (the field was renamed): the only field of
+// type sync.Mutex or sync.RWMutex.
+func resolveGuardSpec(p *core.Program, spec guardSpec) guardSpec {
+	n := p.NamedType(spec.pkg, spec.structName)
+	if n == nil {
+		return spec
+	}
+	st, ok := n.Underlying().(*types.Struct)
+	if !ok {
+		return spec
+	}
+	var mutexes []string
+	for i := 0; i < st.NumFields(); i++ {
+		f := st.Field(i)
+		if f.Name() == spec.mutex {
+			return spec
+		}
+		if t := strings.TrimPrefix(f.Type().String(), "*"); t == "sync.Mutex" || t == "sync.RWMutex" {
+			mutexes = append(mutexes, f.Name())
+		}
+	}
+	if len(mutexes) == 1 {
+		spec.mutex = mutexes[0]
+	}
+	return spec
 }
